@@ -102,7 +102,29 @@ ChunkedOK(e) ==
   /\ EndsOK(e.stream, e.ends, 1, 1)              \* each value consumed exactly its own bytes
   /\ e.left = 0                                  \* nothing left behind
 
+(* A periodic stream: `unit` (one complete value) repeated e.run times, then *)
+(* `tail` (a few complete values).  The expected result follows from the    *)
+(* decoding of unit and tail alone, so runs far beyond any per-stream limit  *)
+(* of the parser (10000 and more values) cost the specification little.      *)
+ChunkedRunOK(e) ==
+  LET du == DecStream(e.unit)
+      dt == DecStream(e.tail)
+      ul == Len(e.unit)
+      nt == Len(dt.vals)
+  IN
+  /\ du.st = "complete" /\ Len(du.vals) = 1 /\ dt.st = "complete"
+  /\ FoldLeft(LAMBDA a, c : a + c, 0, e.chunks) = e.run * ul + Len(e.tail)
+  /\ Len(e.res) = e.run + nt + 1
+  /\ \A i \in 1..e.run : e.res[i] = Lenient(du.vals[1])
+  /\ \A j \in 1..nt : e.res[e.run + j] = Lenient(dt.vals[j])
+  /\ e.res[e.run + nt + 1] = Eof
+  /\ Len(e.ends) = e.run + nt
+  /\ \A i \in 1..e.run : e.ends[i] = i * ul
+  /\ EndsOK(e.tail, [j \in 1..nt |-> e.ends[e.run + j] - e.run * ul], 1, 1)
+  /\ e.left = 0
+
 Check(e) == CASE e.ev = "rt"      -> RoundTripOK(e)
+              [] e.ev = "chunkedrun" -> ChunkedRunOK(e)
               [] e.ev = "chunked" -> ChunkedOK(e)
               [] e.ev = "float"   -> FloatOK(e)
               [] e.ev = "hostile" -> HostileOK(e)
